@@ -268,8 +268,8 @@ int main(int argc, char** argv) {
           try { SU_vector r = V(a).Rotate(m); (void)r; } catch (...) { gsl_matrix_complex_free(m); throw; } gsl_matrix_complex_free(m); }
         else if (op == "eq") { volatile bool x = (V(a) == V(b)); (void)x; }
         else throw DriverError("bad binary read"); }); }
-    else if (cmd == "Factory") { in >> t >> op >> d >> c;
-      window(head_of(cmd, t, a, b, op, "", d, 0, c, 0, 0), 0, [&] {
+    else if (cmd == "Factory") { in >> t >> op >> d >> c; if (!(in >> fail)) fail = 0;
+      window(head_of(cmd, t, a, b, op, "", d, 0, c, 0, 0), fail, [&] {
         if (op == "projector") new (slots[t]) SU_vector(SU_vector::Projector(d, c));
         else if (op == "identity") new (slots[t]) SU_vector(SU_vector::Identity(d));
         else if (op == "generator") new (slots[t]) SU_vector(SU_vector::Generator(d, c));
@@ -292,8 +292,8 @@ int main(int argc, char** argv) {
         bool al = aligned_ok(T) && aligned_ok(A) && aligned_ok(B);
         if ((flags & 1) && noalias) f |= 1;
         if ((flags & 2) && eqsz) f |= 2;
-        if (flags == 7 && noalias && eqsz && al) f = 7;
-        if (f != 7 && (f & 4)) f &= 3;
+        if ((flags & 4) && al) f |= 4;
+        if (f == 6) f = 2;      // instantiated flag sets: 0 1 2 3 4 5 7
       }
       if (op == "fastevolve") { unsigned dd = A.Dim(); if (dd >= 2 && dd <= 6) { Mat H(dd); for (unsigned i = 0; i < dd; i++) H(i, i) = (double)i;
           std::vector<double> hc = comps_from_matrix(H); static double hstore[40]; for (unsigned q2 = 0; q2 < dd * dd; q2++) hstore[q2] = hc[q2];
